@@ -974,6 +974,29 @@ def fam_registry(seed, n):
         steps += [rstep("rpc", via="all") for _ in range(2 * ntun + 1)] + [rstep("rpc", via="key:k1") for _ in range(2 * ntun + 1)]
         steps += [rstep("stop", t=1)] + [rstep("rpc", via="all") for _ in range(2 * ntun)]
         out.append({"name": "registry-roundrobin-%d" % ntun, "steps": steps, "meta": {"family": "registry"}})
+    # (4) a caller waits for readiness while the last tunnel is being cleaned up (its unregistration, the close
+    # callback, the handler's own redundant removals), then a new tunnel opens: the waiter must wake
+    for g in ("reg.unreg.global", "reg.unreg.key", "cb.close"):
+        for end in ("fail", "ctxcancel", "stop", "close"):
+            for key in ("k1", ""):
+                steps = [rstep("serve", t=1, key=key), rstep("rpc", via="all"), rstep(end, t=1)]     # parks during clean-up
+                steps += [rstep("waitready", via="all", op=1), rstep("waitready", via="key:" + key, op=2)]
+                steps += [rstep("release", point=g, t=1)]
+                steps += [rstep("waitready", via="key:" + key, op=3)]
+                steps += [rstep("serve", t=2, key=key), rstep("ready", via="all"), rstep("rpc", via="key:" + key), rstep("rpc", via="all")]
+                out.append({"name": "registry-wait-cleanup-%s-%s-%s" % (g, end, key or "nokey"), "gates": [g], "steps": steps,
+                            "meta": {"family": "registry"}})
+    # (5) tunnels that register at the same moment (held together in the AffinityKey callback and let go at once,
+    # real parallelism), in particular with a key nobody used before; then every one of them must be reachable
+    for i in range(max(8, n // 4)):
+        steps = []
+        t = 0
+        for key in rng.sample(["k1", "k2", ""], 3):
+            steps += [rstep("serve", t=t + 1, key=key), rstep("serve", t=t + 2, key=key)]
+            t += 2
+            steps += [rstep("ready", via="key:" + key)] + [rstep("rpc", via="key:" + key) for _ in range(4)]
+        steps += [rstep("rpc", via="all") for _ in range(6)]
+        out.append({"name": "registry-together-%d" % i, "rendezvous": 2, "steps": steps, "meta": {"family": "registry"}})
     # (3) every sub-step of opening / unregistering held while the tunnel ends or is used
     for g in REG_GATES:
         for end in ("fail", "ctxcancel", "stop", "close", "none"):
